@@ -21,14 +21,15 @@ RULE = ("clean motif networks from the harness builder: families {2-clique}, {2-
         "(quick) / up to 400 (thorough), on average >= 2 motifs per vertex, ids shuffled or sorted by class, 30% of the networks with an extra class of vertices that are in no motif (joint degree all zero), 30% with list-valued annotations; full-support targets (uniform, product of "
         "marginals, assortative mix); parameters: limits omitted / CONVERGENCE_LIMIT in {0,1,5,50,500,5000} / SEARCH_LIMIT in {1,5,25}; 1 seed per case; 30% of the cases then point the SAME rewiring object at another network/target through its setters and rewire again; "
         "non-trivial = >= 10 accepted swaps and (>= 2 topologies or a corner of >= 2 edges); distinct = SHA-1 of (network, target, parameters, seed)")
+RULE += ("; rounds k-l added: " + 'single-name motifs with corners of different sizes (wedge, star, path on 4, chorded 4-cycle), paths b-c-b with two names, 96 (quick) small dense networks (10..20 vertices) of paths / stars / 6-cycles in which motifs share vertices (short capped chains: only swaps between motifs still as given are judged there), a quarter of the runs with logging disabled process-wide')
 ASSUMPTIONS = ["inputs are clean by construction and re-checked before use (harness code)",
                "how rewire() makes its working copy is not prescribed: a MonitoredGraph copy is followed as it is, any other nx.Graph is adopted (re-classed) at the first proposal, working on the given graph itself is reported at its first mutation",
                "rewire() is unwound by logical budgets (thorough: proposals <= 3000*limit + 200000 and a stall window of 100000 proposals without an accepted swap; quick: 60000 proposals, stall window 15000; draws <= 50x the proposal budget); everything observed up to a stop is checked, the run is recorded as stopped",
                "a shape failure is attributed to the known finding K1 only if every shape-breaking swap carries the K1 signature"]
 HEADLINE = ["runs", "accepted_swaps", "proposals", "sig_K1", "sig_ideal", "sig_other", "shape_fail_K1", "shape_ok_swaps", "self_loop_corner_proposals",
-            "default_limit_runs", "reused_object_runs", "list_annotation_runs", "rewire_again_after_in_place_edit_of_the_network", "rewire_calls_aborted_by_injected_fault", "targets_with_tiny_positive_weights", "runs_on_vertex_objects", "runs_on_a_frozen_input_graph", "runs_with_isolated_vertices", "adopted_working_graphs", "stopped_runs", "drawset_invariant_evals", "input_events", "created_edges"]
-REQUIRED = {"quick": {"accepted_swaps": 2000, "self_loop_corner_proposals": 20, "default_limit_runs": 5, "hooks_installed": 100, "two_name_runs": 3, "runs_with_isolated_vertices": 10},
-            "thorough": {"accepted_swaps": 100000, "self_loop_corner_proposals": 500, "default_limit_runs": 100, "hooks_installed": 1000, "two_name_runs": 50, "runs_with_isolated_vertices": 100}}
+            "default_limit_runs", "reused_object_runs", "list_annotation_runs", "rewire_again_after_in_place_edit_of_the_network", "rewire_calls_aborted_by_injected_fault", "targets_with_tiny_positive_weights", "runs_on_vertex_objects", "runs_on_a_frozen_input_graph", "runs_with_isolated_vertices", "adopted_working_graphs", "stopped_runs", "drawset_invariant_evals", "input_events", "created_edges", "swaps_between_two_untouched_motifs", "untouched_motif_swaps_shape_decided", "runs_with_logging_disabled_process_wide"]
+REQUIRED = {"quick": {"accepted_swaps": 2000, "self_loop_corner_proposals": 20, "default_limit_runs": 5, "hooks_installed": 100, "two_name_runs": 3, "runs_with_isolated_vertices": 10, "untouched_motif_swaps_shape_decided": 100, "runs_on_single_name_motifs_with_corners_of_different_sizes": 5},
+            "thorough": {"accepted_swaps": 100000, "self_loop_corner_proposals": 500, "default_limit_runs": 100, "hooks_installed": 1000, "two_name_runs": 50, "runs_with_isolated_vertices": 100, "untouched_motif_swaps_shape_decided": 1000, "runs_on_single_name_motifs_with_corners_of_different_sizes": 50}}
 SHARD_TIMEOUT = {"quick": 900, "thorough": 14400}
 
 FAMILIES = {
